@@ -27,6 +27,18 @@ type bRun struct {
 	snaps    []*balloon.Snapshot          // by version
 	last     map[string]uint64            // digest -> version the log reports for it
 	callEnds []uint64                     // version count after each call
+	addPanic string                       // set when Add/AddBulk panicked
+}
+
+// addFailed reports an insertion that panicked (a violation of C01, C04 and C11 alike).
+func addFailed(out *cq.Out, r *bRun, replay map[string]interface{}) bool {
+	if r.addPanic == "" {
+		return false
+	}
+	for _, id := range []string{"C01", "C04", "C05", "C08", "C11"} {
+		out.Violate(id+":add-panic", fmt.Sprintf("Balloon.Add/AddBulk panicked after %d events: %.200s", len(r.events), r.addPanic), replay)
+	}
+	return true
 }
 
 func newBRun() *bRun {
@@ -46,6 +58,16 @@ func (r *bRun) close() {
 
 // add performs Add (single==true, one event) or AddBulk and persists the mutations.
 func (r *bRun) add(evs [][]byte, single bool) []*balloon.Snapshot {
+	var snaps []*balloon.Snapshot
+	panicked, msg := cq.Catch(func() { snaps = r.addRaw(evs, single) })
+	if panicked {
+		r.addPanic = msg
+		return nil
+	}
+	return snaps
+}
+
+func (r *bRun) addRaw(evs [][]byte, single bool) []*balloon.Snapshot {
 	var snaps []*balloon.Snapshot
 	if single {
 		s, muts, err := r.b.Add(evs[0])
@@ -396,6 +418,9 @@ func balloonCmd(out *cq.Out, seed uint64, tier string) {
 				}
 			}
 			snaps := r.add(evs, single)
+			if addFailed(out, r, map[string]interface{}{"case": ci, "seed": seed, "plan": strings.Join(plan, ","), "call_size": len(evs), "single": single}) {
+				break
+			}
 			if single {
 				plan = append(plan, "a")
 			} else {
